@@ -70,10 +70,16 @@ func c18(r *ev.Run) {
 	if r.Tier == "thorough" {
 		iters = 2500
 	}
-	c18Iterations(r, false, iters, r.Seed+18)
+	// (a fresh proxy process every 250 services: the statistics of a stopped service are never released by the process, a few
+	// megabytes each - thousands of services in one process would need tens of gigabytes)
+	for done := 0; done < iters; done += 250 {
+		c18Iterations(r, false, min(250, iters-done), r.Seed+18+int64(done)*7)
+	}
 	// the same iterations on a race-instrumented proxy: the reply is handed to the session by one goroutine and its cursor is
 	// rewritten by another piece of code; only the race detector sees an overlap that lasts nanoseconds
-	c18Iterations(r, true, iters/6, r.Seed+1818)
+	for done := 0; done < iters/6; done += 100 {
+		c18Iterations(r, true, min(100, iters/6-done), r.Seed+1818+int64(done)*7)
+	}
 	r.Require("iterations_completed", int64(iters/2))
 }
 
